@@ -56,6 +56,19 @@ END_SCHEMA;
 """
 
 
+def non_ascii_strings_schema():
+    """string literals with multibyte UTF-8 characters whose byte length / character length straddle the pretty printer's
+    line limit (exppp -l, default 130): every character count from 30 to 80 (60..160 bytes), plus mixed ASCII/non-ASCII"""
+    l = ["SCHEMA non_ascii_notes;", "CONSTANT"]
+    for n in range(30, 81):
+        l.append(f"  note_{n} : STRING := '" + ("\u00e4\u00f6\u00fc\u00df" * 25)[:n] + "';")
+    for n in range(60, 125, 4):
+        l.append(f"  mixed_{n} : STRING := '" + ("Pr\u00fcfma\u00df \u00fcberschritten: \u00e4u\u00dfere Ma\u00dfe (L\u00e4nge, H\u00f6he) gem\u00e4\u00df Pr\u00fcfvorschrift f\u00fcr Zubeh\u00f6rteile " * 3)[:n].rstrip() + "';")
+    l += ["END_CONSTANT;", "ENTITY inspection;", "  part_name : STRING;", "  note : OPTIONAL STRING;", "WHERE",
+          "  wr1 : note <> '" + "\u00e9" * 58 + "';", "END_ENTITY;", "END_SCHEMA;", ""]
+    return "\n".join(l)
+
+
 def have_setarch():
     try:
         return subprocess.run(["setarch", platform.machine(), "-R", "true"], capture_output=True).returncode == 0
@@ -64,8 +77,12 @@ def have_setarch():
 
 
 class Config:
-    def __init__(self, name, aslr=True, cwd="a", relative=False, big_env=False, locale="C", reuse=False):
+    def __init__(self, name, aslr=True, cwd="a", relative=False, big_env=False, locale="C", reuse=False, history=False):
         self.name, self.aslr, self.cwd, self.relative, self.big_env, self.locale, self.reuse = name, aslr, cwd, relative, big_env, locale, reuse
+        # history: an earlier run on ANOTHER revision of the file (one more entity) left its output in the directory, and the
+        # file then got its content back with an older modification time; only for tools that overwrite everything they
+        # report (schema_scanner) — exp2cxx & co. never delete files of entities that no longer exist
+        self.history = history
 
 
 def configs(quick, setarch):
@@ -73,10 +90,11 @@ def configs(quick, setarch):
     if quick:
         return [base, Config("repeat"),
                 Config("all-varied", aslr=not setarch, cwd="bb/deeper/dir", relative=True, big_env=True, locale="C.UTF-8"),
-                Config("over-previous-run", reuse=True)]
+                Config("over-previous-run", reuse=True), Config("after-other-revision", history=True)]
     cs = [base, Config("repeat"), Config("repeat2"), Config("cwd", cwd="bb/deeper/dir"), Config("relative-path", relative=True),
           Config("huge-env", big_env=True), Config("utf8-locale", locale="C.UTF-8"), Config("over-previous-run", reuse=True),
-          Config("all-varied", cwd="cc", relative=True, big_env=True, locale="C.UTF-8")]
+          Config("all-varied", cwd="cc", relative=True, big_env=True, locale="C.UTF-8"), Config("after-other-revision", history=True),
+          Config("lang-utf8", locale="LANG=C.UTF-8")]
     if setarch:
         cs += [Config("no-aslr", aslr=False), Config("no-aslr-2", aslr=False)]
     return cs
@@ -87,6 +105,8 @@ TOOLS = ["exp2cxx", "exp2python", "exppp", "schema_scanner"]
 
 def run_tool(b, tool, exp_abs, root, cfg, timeout=600):
     """-> (rc, outdir, stdout_masked).  Output tree = everything the tool leaves in its working directory."""
+    if cfg.history:
+        return run_history(b, tool, exp_abs, root, cfg, timeout)
     wd = os.path.join(root, tool, cfg.cwd if not cfg.reuse else "reuse")
     if cfg.reuse and not os.path.isdir(wd):
         os.makedirs(wd)
@@ -96,8 +116,12 @@ def run_tool(b, tool, exp_abs, root, cfg, timeout=600):
         shutil.rmtree(wd, ignore_errors=True)
         os.makedirs(wd)
     path = os.path.relpath(exp_abs, wd) if cfg.relative else exp_abs
-    env = {"PATH": "/usr/bin:/bin", "LD_LIBRARY_PATH": b.lib, "LC_ALL": cfg.locale, "HOME": "/nonexistent",
+    env = {"PATH": "/usr/bin:/bin", "LD_LIBRARY_PATH": b.lib, "HOME": "/nonexistent",
            "ASAN_OPTIONS": "detect_leaks=0", "UBSAN_OPTIONS": "print_stacktrace=1"}
+    if cfg.locale.startswith("LANG="):
+        env["LANG"] = cfg.locale[5:]        # LC_ALL unset: the locale comes from LANG
+    else:
+        env["LC_ALL"] = cfg.locale
     if cfg.big_env:
         for i in range(150):
             env[f"VERIF_FILLER_{i}"] = "x" * 800
@@ -111,6 +135,30 @@ def run_tool(b, tool, exp_abs, root, cfg, timeout=600):
     # and in SCHEMA_TARGETS("<input>") / messages: mask exactly these two strings
     out = out.replace(wd, "<CWD>").replace(path, "<INPUT>")
     return r.returncode, wd, out, path, r.stderr.decode("latin-1")[-300:]
+
+
+def run_history(b, tool, exp_abs, root, cfg, timeout):
+    wd = os.path.join(root, tool, "history")
+    shutil.rmtree(wd, ignore_errors=True)
+    os.makedirs(wd)
+    if tool != "schema_scanner":
+        return run_tool(b, tool, exp_abs, root, Config(cfg.name, cwd="history"), timeout)
+    text = open(exp_abs, encoding="latin-1").read()
+    m = re.search(r"(?im)^\s*END_SCHEMA\s*;", text)
+    st = os.stat(exp_abs)
+    try:
+        if m:
+            open(exp_abs, "w", encoding="latin-1").write(text[:m.start()] + "ENTITY zz_history_probe_entity;\n  zz_probe_attr : INTEGER;\nEND_ENTITY;\n" + text[m.start():])
+            run_tool(b, tool, exp_abs, root, Config("other-revision", cwd="history-tmp"))
+            shutil.rmtree(wd); shutil.move(os.path.join(root, tool, "history-tmp"), wd)
+    finally:
+        open(exp_abs, "w", encoding="latin-1").write(text)
+        os.utime(exp_abs, (1_577_836_800, 1_577_836_800))
+    env = {"PATH": "/usr/bin:/bin", "LD_LIBRARY_PATH": b.lib, "LC_ALL": "C", "HOME": "/nonexistent", "ASAN_OPTIONS": "detect_leaks=0"}
+    r = subprocess.run([G.build_scanner(b), exp_abs], cwd=wd, env=env, capture_output=True, timeout=timeout)
+    os.utime(exp_abs, (st.st_atime, st.st_mtime))
+    out = r.stdout.decode("latin-1").replace(wd, "<CWD>").replace(exp_abs, "<INPUT>")
+    return r.returncode, wd, out, exp_abs, r.stderr.decode("latin-1")[-300:]
 
 
 def snapshot(wd, masks):
@@ -158,7 +206,8 @@ def predictions(ctx, b, model_exe, gen_file, exp_abs, snap):
             if isinstance(t.body, SG.TAgg) and t.body.lo is not None:
                 for nr, bd in ((1, t.body.lo), (2, t.body.hi)):
                     shape = {"lit": "lit", "inf": "inf", "neg": "neglit", "arith": "op", "const": "ident", "attr": "ident",
-                             "derived": "ident", "self": "runtime", "funcall": "funcall"}[bd.shape]
+                             "derived": "ident", "self": "runtime", "funcall": "funcall",
+                             "negconst": "op", "negattr": "op", "negderived": "op"}[bd.shape]
                     txt = str(bd.value) if shape == "lit" else ("x" if shape == "inf" else bd.text().lstrip("-") if shape == "neglit" else bd.text())
                     lines.append(f"bound {nr} {s.name}::t_{t.name} Sdai{s.name.capitalize()} {t.name} {shape} {txt.encode().hex()}")
                     meta.append((s, t, nr, bd, init))
@@ -194,7 +243,7 @@ def predictions(ctx, b, model_exe, gen_file, exp_abs, snap):
             if not rl:
                 if f"Sdai{s.name.upper()}.init.cc" in snap:
                     dis.append(f"no SetBound{nr} line for type {t.name} in the real output, model predicts {want.strip()!r}")
-            elif (bd.shape in ("funcall", "arith", "const") and rule != "legacy") or (bd.shape == "neg" and rule == "literalOnly") or bd.shape == "funcall":
+            elif (bd.shape in ("funcall", "arith", "const", "negconst", "negattr", "negderived") and rule != "legacy") or (bd.shape == "neg" and rule == "literalOnly") or bd.shape == "funcall":
                 # the text is EXPRto_string's rendering: compare modulo blanks (the pretty printer's spacing is C07's subject)
                 if re.sub(r"\s+", "", rl[0]).lower() != re.sub(r"\s+", "", want).lower():
                     dis.append(f"type {t.name} bound {nr}: real {rl[0].strip()!r} vs model {want.strip()!r}")
@@ -273,7 +322,7 @@ def run(ctx):
     cfgs = configs(quick, setarch)
     idx = 0
     # corpus / fixed inputs first: the confirmed defect (DESIGN §6 row 9) on a minimal schema
-    fixed = [("min-nonliteral-bound", MIN_BOUND), ("all-bound-shapes-text", ALL_BOUNDS)]
+    fixed = [("min-nonliteral-bound", MIN_BOUND), ("all-bound-shapes-text", ALL_BOUNDS), ("non-ascii-strings-near-line-limit", non_ascii_strings_schema())]
     for p in sorted(glob.glob(os.path.join(VERIF, "corpus", "C12", "*.exp"))):
         fixed.append(("corpus:" + os.path.basename(p), open(p).read()))
     for name, text in fixed:
@@ -285,7 +334,7 @@ def run(ctx):
     n_gen = 8 if quick else 100
     for i in range(n_gen):
         r = ctx.rng
-        g = SG.Gen(r, mixed_case=r.choice([0, 0.4]), p_nonliteral_bound=r.choice([0.0, 0.0, 0.5]))
+        g = SG.Gen(r, mixed_case=r.choice([0, 0.4]), p_nonliteral_bound=r.choice([0.0, 0.3, 0.6]), p_negated_ref=0.5)
         f = g.schema_file(nschemas=r.choice([1, 1, 2]))
         for ft in f.features():
             if ft.startswith(("bound:", "multi")):
